@@ -170,6 +170,20 @@ def execute(cls, stack, stdout, context):
 }
 
 
+# equivalent spellings (asserts are stripped before comparison): DUP that checks `is_duplicable()` on the peeked value
+# itself (fixes/C20-4) — every value of this fragment is duplicable, `duplicate()` is reached the same way
+INSTR_ALT = {
+    'DupInstruction': ['''
+def execute(cls, stack, stdout, context):
+    top = stack.peek()
+    res = top.duplicate()
+    stack.push(res)
+    stdout.append(format_stdout(cls.prim, [res], [res, res]))
+    return cls(stack_items_added=1)
+'''],
+}
+
+
 def classify_execute(fn):
     if fn is None:
         return None
@@ -227,7 +241,7 @@ def gen_c22(status):
     bad = []
     for (rel, cls), ref in INSTR.items():
         fn = find_func(find_class(parse('michelson/' + rel), cls), 'execute')
-        if not _same(fn, ref):
+        if not _same(fn, ref) and not any(_same(fn, alt) for alt in INSTR_ALT.get(cls, ())):
             bad.append(cls)
     flag('cell alphabet instruction bodies', 'instrShape', not bad,
          'BEGIN, COMMIT, RUN, DROP_ALL, BIG_MAP_DIFF, EMPTY_BIG_MAP, DUP and the storage / parameter / code sections',
